@@ -176,7 +176,7 @@ def semTok : Sem → String
   | .fid => "FID" | .fecfr => "FEC-FR"
 
 def showSection (nm : Names) (sec : Section) : String :=
-  if sec.rejected then s!"{kindMedia sec.kind},-,0,-,-,-,-,-,-" else
+  if sec.rejected then s!"{kindMedia sec.kind},{midTok sec.mid},0,-,-,-,-,-,-" else
   let msids := sec.msids.map fun (s, t) => msidHex nm s t
   let srcs := (groupSources (sec.sources.map fun x => (nm.ssrcRO x.ssrc, msidHex nm x.stream x.track)) []).map
     fun (n, ms) => String.intercalate "~" (n :: ms)
